@@ -248,14 +248,14 @@ func loadStrconv(g *VM) {
 	g.Set("strconv.ParseFloat", NewFunc(2, 2, func(vm *VM, args []Value) []Value {
 		res, err := strconv.ParseFloat(args[0].String(), args[0].Int())
 		if err != nil {
-			return []Value{Float64(0), Error(err)}
+			return []Value{Float64(res), Error(err)} // like Go: +-Inf accompanies a range error
 		}
 		return []Value{Float64(res), Nil()}
 	}))
 	g.Set("strconv.ParseInt", NewFunc(3, 2, func(vm *VM, args []Value) []Value {
 		res, err := strconv.ParseInt(args[0].String(), args[1].Int(), args[2].Int())
 		if err != nil {
-			return []Value{Int(0), Error(err)}
+			return []Value{Int(int(res)), Error(err)} // like Go: the clamped value accompanies a range error
 		}
 		return []Value{Int(int(res)), Nil()}
 	}))
